@@ -70,6 +70,8 @@ struct GSite {
 
 #[derive(Clone, Debug, PartialEq)]
 struct DSite {
+    /// schedule on every sample (then `at` is unused)
+    every: bool,
     at: u64,
     task: usize,
     d: f64,
@@ -100,7 +102,7 @@ impl Spec {
                 "spawns": t.spawns.iter().map(|s| json!({"to": s.to, "d": s.d, "on": s.on, "via": s.via})).collect::<Vec<_>>(),
             })).collect::<Vec<_>>(),
             "globals": self.globals.iter().map(|s| json!({"task": s.task, "abs": s.abs, "t": s.t, "via": s.via})).collect::<Vec<_>>(),
-            "dsps": self.dsps.iter().map(|s| json!({"at": s.at, "task": s.task, "d": s.d, "via": s.via})).collect::<Vec<_>>(),
+            "dsps": self.dsps.iter().map(|s| json!({"every": s.every, "at": s.at, "task": s.task, "d": s.d, "via": s.via})).collect::<Vec<_>>(),
         })
     }
     fn from_json(v: &Value) -> Option<Spec> {
@@ -132,7 +134,7 @@ impl Spec {
         let mut dsps = vec![];
         if let Some(a) = v.get("dsps").and_then(|x| x.as_array()) {
             for s in a {
-                dsps.push(DSite { at: s.get("at")?.as_u64()?, task: s.get("task")?.as_u64()? as usize, d: s.get("d")?.as_f64()?, via: s.get("via").and_then(|x| x.as_u64()).unwrap_or(0) as u8 });
+                dsps.push(DSite { every: s.get("every").and_then(|x| x.as_bool()).unwrap_or(false), at: s.get("at").and_then(|x| x.as_u64()).unwrap_or(0), task: s.get("task")?.as_u64()? as usize, d: s.get("d")?.as_f64()?, via: s.get("via").and_then(|x| x.as_u64()).unwrap_or(0) as u8 });
             }
         }
         Some(Spec { n: v.get("n")?.as_u64()?, mono: v.get("mono").and_then(|x| x.as_bool()).unwrap_or(false), tasks, globals, dsps })
@@ -353,7 +355,7 @@ fn simulate(s: &Spec) -> Result<Sim, String> {
         // dsp of sample t
         let before = m.tick_pending_after(t);
         let mut created = 0;
-        for d in s.dsps.iter().filter(|d| d.at == t) {
+        for d in s.dsps.iter().filter(|d| d.every || d.at == t) {
             m.schedule(t, t as f64 + d.d, d.task, 1, 1)?;
             created += 1;
         }
@@ -488,8 +490,12 @@ impl<'a> Rend<'a> {
         }
         o.push_str("fn dsp(){\n");
         for d in &s.dsps {
-            let site = self.site(d.task, &format!("now + {}", num(d.d)), d.via, "        ", false);
-            o.push_str(&format!("    if (now == {}) {{ {site} }} else {{ nop() }}\n", num(d.at as f64)));
+            let site = self.site(d.task, &format!("now + {}", num(d.d)), d.via, if d.every { "        " } else { "        " }, false);
+            if d.every {
+                o.push_str(&format!("    {site}\n"));
+            } else {
+                o.push_str(&format!("    if (now == {}) {{ {site} }} else {{ nop() }}\n", num(d.at as f64)));
+            }
         }
         if self.mono {
             o.push_str("    acc\n");
@@ -712,6 +718,9 @@ fn finish(s: &Spec, cx: &Cx, mode: &str) -> CaseResult {
     if sim.far_future {
         cl.push("beyond-run-length".into());
     }
+    if s.dsps.iter().any(|d| d.every) {
+        cl.push("dsp-schedules-every-sample".into());
+    }
     if sim.max_pending >= 10 {
         cl.push("pending>=10".into());
     }
@@ -872,7 +881,7 @@ fn gen_spec(g: &mut Gen, tier: Tier) -> Spec {
     let free: Vec<usize> = (0..nt).filter(|i| s.tasks[*i].form != 2 && !s.abs_chain(*i)).collect();
     if !free.is_empty() {
         let (lo, hi) = match profile {
-            1 => (2, 24),
+            1 => (2, if tier == Tier::Thorough { 150 } else { 40 }),
             2 => (1, 8),
             _ => (0, 6),
         };
@@ -896,7 +905,13 @@ fn gen_spec(g: &mut Gen, tier: Tier) -> Spec {
             }
         };
         let lo = if s.globals.is_empty() || (profile == 2 && lone_chain.is_none()) { 1.min(hi) } else { 0 };
-        s.dsps = g.vec(lo, hi, |g| DSite { at: g.int_small(0, n as i64 - 1) as u64, task: *g.pick(&dsp_targets), d: *g.pick(&DELAYS), via: gen_via(g) });
+        let unchained: Vec<usize> = dsp_targets.iter().copied().filter(|j| s.tasks[*j].chain.is_none() && s.tasks[*j].spawns.is_empty()).collect();
+        s.dsps = g.vec(lo, hi, |g| {
+            let every = !unchained.is_empty() && g.bool(1, 6);
+            let task = if every { *g.pick(&unchained) } else { *g.pick(&dsp_targets) };
+            let at = if every { 0 } else { g.int_small(0, n as i64 - 1) as u64 };
+            DSite { every, at, task, d: *g.pick(&DELAYS), via: gen_via(g) }
+        });
     }
     if s.globals.is_empty() && s.dsps.is_empty() {
         // nothing would ever run: schedule the first free task once
@@ -1033,7 +1048,7 @@ fn shrink_spec(s: &Spec) -> Vec<Spec> {
     }
     for k in 0..s.dsps.len() {
         let x = &s.dsps[k];
-        let simpler = [DSite { via: 0, ..x.clone() }, DSite { d: x.d.floor(), ..x.clone() }, DSite { d: 1.0, ..x.clone() }, DSite { at: x.at / 2, ..x.clone() }, DSite { at: 0, ..x.clone() }];
+        let simpler = [DSite { every: false, ..x.clone() }, DSite { via: 0, ..x.clone() }, DSite { d: x.d.floor(), ..x.clone() }, DSite { d: 1.0, ..x.clone() }, DSite { at: x.at / 2, ..x.clone() }, DSite { at: 0, ..x.clone() }];
         for x2 in simpler {
             if &x2 != x {
                 let mut o = s.clone();
@@ -1098,7 +1113,7 @@ impl Prop for C11 {
         }
     }
     fn rule(&self) -> String {
-        "A case is a task multiset: up to 8 task definitions (named function / inline lambda / letrec closure with a local counter made by a maker function), each with an optional self-rescheduling chain (period >= 1, `now + p` or an accumulating absolute-time variable, optionally bounded by the task's own run count) and up to 3 spawns of later tasks (delay >= 1, optionally only on the k-th run); scheduling sites at global scope (literal or `now + t` times, equal times reused on purpose, fractional parts, times at or beyond the run length, order permuted), in dsp (`if (now == s) {..}`) and in running tasks; three syntactic forms (`f@t`, `_mimium_schedule_at(t, f)`, `| |{ f() }@t`). Effects are commutative: each task increments its own counter and adds its own power of two to a shared accumulator; dsp returns the accumulator (one channel) or the tuple of counters. Every scheduled time truncates to a sample later than the current one (documented precondition). Oracle: a reference schedule model (multiset of pending (floor(time), task); at sample t, before dsp, every task with floor(time) == t runs exactly once, what it schedules joins the multiset) gives the expected output words of every sample; the VM must equal the model bit for bit, the WASM runtime must equal the VM; a panic of either runtime is a failure. Non-trivial = >= 3 task runs, >= 2 runs at one sample, and a rescheduling chain of length >= 3; distinct by source + run length. Run length 8..64 samples (thorough: up to 200).".into()
+        "A case is a task multiset: up to 8 task definitions (named function / inline lambda / letrec closure with a local counter made by a maker function), each with an optional self-rescheduling chain (period >= 1, `now + p` or an accumulating absolute-time variable, optionally bounded by the task's own run count) and up to 3 spawns of later tasks (delay >= 1, optionally only on the k-th run); scheduling sites at global scope (up to 40, thorough 150; literal or `now + t` times, equal times reused on purpose, fractional parts, times at or beyond the run length, order permuted), in dsp (`if (now == s) {..}` or on every sample) and in running tasks; three syntactic forms (`f@t`, `_mimium_schedule_at(t, f)`, `| |{ f() }@t`). Effects are commutative: each task increments its own counter and adds its own power of two to a shared accumulator; dsp returns the accumulator (one channel) or the tuple of counters. Every scheduled time truncates to a sample later than the current one (documented precondition). Oracle: a reference schedule model (multiset of pending (floor(time), task); at sample t, before dsp, every task with floor(time) == t runs exactly once, what it schedules joins the multiset) gives the expected output words of every sample; the VM must equal the model bit for bit, the WASM runtime must equal the VM; a panic of either runtime is a failure. Non-trivial = >= 3 task runs, >= 2 runs at one sample, and a rescheduling chain of length >= 3; distinct by source + run length. Run length 8..64 samples (thorough: up to 200).".into()
     }
     fn assumptions(&self) -> Vec<String> {
         vec![
@@ -1110,6 +1125,6 @@ impl Prop for C11 {
         ]
     }
     fn required_classes(&self, _tier: Tier) -> Vec<&'static str> {
-        vec!["origin:global", "origin:dsp", "origin:task", "equal-times", "fractional-time", "chain>=3", "fanout", "out:mono", "out:tuple", "wasm:agrees", "wasm-checked-with-tick-origin", "beyond-run-length", "via:at", "via:schedule_at", "via:wrapper-lambda", "form:named", "form:inline-lambda", "form:letrec-closure", "chain:absolute-time", "chain:bounded"]
+        vec!["origin:global", "origin:dsp", "origin:task", "equal-times", "fractional-time", "chain>=3", "fanout", "out:mono", "out:tuple", "wasm:agrees", "wasm-checked-with-tick-origin", "beyond-run-length", "via:at", "via:schedule_at", "via:wrapper-lambda", "form:named", "form:inline-lambda", "form:letrec-closure", "chain:absolute-time", "chain:bounded", "dsp-schedules-every-sample", "pending>=10", "chain>=16"]
     }
 }
